@@ -201,7 +201,9 @@ func (lm *LineMatch) ToProto() *webserverv1.LineMatch {
 }
 
 func SymbolFromProto(p *webserverv1.SymbolInfo) *Symbol {
-	if p == nil {
+	// a repeated field cannot carry nil: ChunkMatch.SymbolInfo's nil elements arrive
+	// as empty messages
+	if p == nil || (p.GetSym() == "" && p.GetKind() == "" && p.GetParent() == "" && p.GetParentKind() == "") {
 		return nil
 	}
 
